@@ -157,6 +157,9 @@ func scenariosFor(prop string) []scn {
 		for _, blocked := range [][]string{nil, {"d1"}, {"dlq"}, {"d0", "d1"}} {
 			both(flowParams{Sources: 1, Records: 2, Batch: 1, Dests: 2, AckMenu: okNack, Stop: "force", Blocked: blocked}, 2, 3)
 		}
+		// a graceful stop is accepted but cannot drain (a destination never confirms), then the force stop: failed by force stop
+		both(flowParams{Sources: 1, Records: 2, Batch: 1, Dests: 1, AckMenu: onlyOK, Stop: "force", GracefulFirst: true, Blocked: []string{"d0"}}, 2, 3)
+		both(flowParams{Sources: 1, Records: 2, Batch: 1, Dests: 1, AckMenu: onlyOK, Stop: "force", GracefulFirst: true}, 2, 3)
 		both(flowParams{Sources: 1, Records: 3, Batch: 1, Dests: 1, AckMenu: onlyOK, Stop: "force", Restart: true}, 2, 3)
 		both(flowParams{Sources: 2, Records: 2, Batch: 2, Dests: 1, AckMenu: onlyOK, Stop: "force", Restart: true}, 1, 2)
 		both(flowParams{Sources: 1, Records: 3, Batch: 1, Dests: 1, AckMenu: onlyOK, Stop: "force", Restart: true, Procs: []procParam{{ID: "pp", Gate: true}}}, 2, 3)
@@ -203,6 +206,8 @@ func scenariosFor(prop string) []scn {
 		both(flowParams{Sources: 1, Records: 2, Batch: 1, Dests: 1, AckMenu: onlyOK, Window: 1, Thresh: 0, Procs: []procParam{{ID: "pp", Workers: 2, Kinds: []string{"p", "e"}}}, Retries: 2}, 1, 2)
 		// ... the processor sits on ONE destination branch of a fan-out and rejects a record in the middle of a batch
 		both(flowParams{Sources: 1, Records: 3, Batch: 3, Dests: 2, AckMenu: onlyOK, Window: 1, Thresh: 0, Procs: []procParam{{ID: "dp", Parent: "d1", Kinds: []string{"p", "e", "p"}}}, Retries: 2}, 2, 3)
+		// two processors on one destination branch of a fan-out, the SECOND one rejects a record in the middle of a batch
+		both(flowParams{Sources: 1, Records: 3, Batch: 3, Dests: 2, AckMenu: onlyOK, Window: 1, Thresh: 0, Procs: []procParam{{ID: "dp1", Parent: "d1"}, {ID: "dp2", Parent: "d1", Kinds: []string{"p", "e", "p"}}}, Retries: 2}, 2, 3)
 		// a second stop request (or the shutdown) arrives while the first one still drains, then the drain fails transiently
 		both(flowParams{Sources: 1, Records: 1, Batch: 1, Dests: 1, AckMenu: []string{"ok", "err"}, Ctl: []string{"stop", "stop", "wait"}, Retries: 2}, 3, 3)
 		both(flowParams{Sources: 1, Records: 1, Batch: 1, Dests: 1, AckMenu: []string{"ok", "err"}, Ctl: []string{"stop", "stopall", "wait"}, Retries: 2}, 3, 3)
@@ -304,6 +309,8 @@ func scenariosFor(prop string) []scn {
 		v1(flowParams{Sources: 1, Records: 3, Batch: 1, Dests: 1, AckMenu: onlyOK, Procs: pp, Apply: []string{"procbad"}, ProcOpenMenu: []string{"ok"}}, 2, 3)
 		// only the nack threshold of the dead-letter queue changes: not a processor-only change, the pipeline is drained and restarted
 		both(flowParams{Sources: 1, Records: 3, Batch: 1, Dests: 1, AckMenu: onlyOK, Window: 3, Thresh: 1, Procs: pp, Apply: []string{"dlqthresh"}}, 2, 3)
+		// the state changes between plan and apply in ANOTHER field of the very processor the plan updates
+		both(flowParams{Sources: 1, Records: 2, Batch: 1, Dests: 1, AckMenu: onlyOK, Procs: pp, Apply: []string{"proc+stale2"}}, 1, 2)
 		// a restart-class apply whose restart fails (the second source cannot be opened): cleanly stopped, and it can be
 		// started again
 		both(flowParams{Sources: 2, Records: 2, Batch: 1, Dests: 1, AckMenu: onlyOK, Procs: pp, Apply: []string{"conn"}, GateSrcOpen: []string{"s1"}, Ctl: []string{"start", "stopwait"}}, 1, 2)
@@ -388,6 +395,12 @@ func preemptScenariosFor(prop string) []scn {
 		v1(flowParams{Sources: 2, Records: 1, Batch: 1, Dests: 1, AckMenu: onlyOK, Stop: "stopwait", PointOnly: []string{"source.go", "persister.go"}, MaxOcc: 8}, 0, 1)
 		v2(flowParams{Sources: 2, Records: 1, Batch: 1, Dests: 1, AckMenu: onlyOK, Stop: "stopwait", PointOnly: []string{"source.go", "persister.go"}, MaxOcc: 8}, 0, 1)
 	case "C01", "C04":
+		if prop == "C04" {
+			// two flushes of one source's acknowledgments confirmed close together: the goroutine handling the first confirmation
+			// is held between two of its statements while the second one is handled
+			v1(flowParams{Sources: 1, Records: 4, Batch: 1, Dests: 1, AckMenu: onlyOK, Bundle: 2, PointOnly: []string{"source.go"}, MaxOcc: 3}, 0, 1)
+			v2(flowParams{Sources: 1, Records: 4, Batch: 1, Dests: 1, AckMenu: onlyOK, Bundle: 2, PointOnly: []string{"source.go"}, MaxOcc: 3}, 0, 1)
+		}
 		v1(flowParams{Sources: 1, Records: 2, Batch: 1, Dests: 1, AckMenu: []string{"ok", "defer", "nack"}, Stop: ""}, 1, 2)
 		if prop == "C04" || verifkit.Thorough() {
 			v1(flowParams{Sources: 1, Records: 2, Batch: 1, Dests: 2, AckMenu: okNack, Stop: ""}, 1, 2)
